@@ -206,9 +206,9 @@ func init() {
 			"distinct = distinct bundle; non-trivial = all",
 		N: func(tier string) int {
 			if tier == "thorough" {
-				return 5000
+				return 30000
 			}
-			return 300
+			return 1500
 		},
 		Setup: func(tier string, seed uint64, config string) string {
 			soyhtml.Funcs["verifHtmlOnly"] = soyhtml.Func{Apply: func(a []data.Value) data.Value { return data.Int(0) }, ValidArgLengths: []int{1}}
